@@ -340,7 +340,7 @@ def ref_load(lay, model, datum, strict):
                 if all(i in d for i in range(n_)) and len(d) >= n_:
                     raise Unspecified   # an int-keyed mapping that answers every index: nothing documented forbids it
                 raise Reject("wrong container for list node", trail)
-            if type(d) is str:
+            if isinstance(d, str):
                 if strict:
                     raise Reject("wrong container for list node", trail)
                 raise Unspecified    # without strict coercion a str is taken as a sequence of characters; the docs do not say
